@@ -196,16 +196,39 @@ theorem irDefault_of_hom (l : Lit) (h : l.homogeneous = true) : irDefault l = py
       all_of_kind l h _ (fun e he => by cases e <;> simp_all [Scalar.kind, Scalar.isB])
     simp [h1, h2, h3, kindDType]
 
-theorem accepts_of_hom (l : Lit) (h : l.homogeneous = true) : builderAccepts l = true := by
+theorem sameType_of_hom (l : Lit) (h : l.homogeneous = true) : sameTypeAsHead l = true := by
   cases l with
   | s x => rfl
   | l x xs =>
     have hk := hom_kind _ h
     simp only [Lit.elems, Lit.head, List.mem_cons, forall_eq_or_imp] at hk
-    unfold builderAccepts
+    unfold sameTypeAsHead
     cases hx : x.kind <;> simp only [hx, List.all_eq_true] <;> intro e he <;>
       have := hk.2 e he <;> rw [hx] at this <;> cases e <;>
       simp_all [Scalar.kind, Scalar.isB, Scalar.isI, Scalar.isF]
+
+theorem accepts_of_hom (l : Lit) (_h : l.homogeneous = true) : builderAccepts l = true := rfl
+
+theorem builderDefault_of_hom (l : Lit) (h : l.homogeneous = true) : builderDefault l = pyDefault l := by
+  unfold builderDefault builderKeyDType pyDefault
+  rw [sameType_of_hom l h]
+  simp only [if_true]
+  cases hk : l.head.kind with
+  | i => rfl
+  | f => rfl
+  | b =>
+    have := irDefault_of_hom l h
+    simp only [pyDefault, hk] at this
+    simp [this, kindDType]
+
+theorem ruleDefault_of_hom (l : Lit) (h : l.homogeneous = true) : ruleDefault l = pyDefault l :=
+  irDefault_of_hom l h
+
+theorem dynDefault_of_hom (l : Lit) (h : l.homogeneous = true) : dynDefault l = pyDefault l := by
+  simp [dynDefault, h, pyDefault]
+
+theorem hom_of_litRepr (l : Lit) (dt : DType) (h : litRepresentable l dt = true) : l.homogeneous = true := by
+  unfold litRepresentable at h; rw [Bool.and_eq_true] at h; exact h.1
 
 /-- `np.array(literal, dtype)` yields the rule's tensor on representable literals. -/
 theorem npConst_of_repr (l : Lit) (dt : DType) (h : litRepresentable l dt = true) :
@@ -270,26 +293,17 @@ theorem builderConst_of_repr (l : Lit) (dt : DType) (h : litRepresentable l dt =
 
 theorem builderConst_none_of_repr (l : Lit) (h : litRepresentable l (pyDefault l) = true) :
     builderConst l none = .ok (.const (pyDefault l) l.isList (l.elems.map (fun e => specCast e (pyDefault l)))) := by
-  have hh : l.homogeneous = true := by
-    unfold litRepresentable at h; rw [Bool.and_eq_true] at h; exact h.1
-  have := npConst_of_repr l _ h
-  unfold pyDefault at this
-  simp [builderConst, accepts_of_hom l hh, builderDefault, this, pyDefault]
+  have hh := hom_of_litRepr l _ h
+  simp [builderConst, builderAccepts, builderDefault_of_hom l hh, npConst_of_repr l _ h]
 
 theorem builderCastLike_of_repr (l : Lit) (dt : DType) (h : litRepresentable l dt = true) :
     builderCastLike l dt = .ok (.const dt l.isList (l.elems.map (fun e => specCast e dt))) := by
-  have hh : l.homogeneous = true := by
-    unfold litRepresentable at h; rw [Bool.and_eq_true] at h; exact h.1
+  have hh := hom_of_litRepr l _ h
   obtain ⟨vs, hvs, hmap⟩ := castLike_of_repr l dt h
-  unfold builderCastLike builderConst npConst
-  simp only [accepts_of_hom l hh, if_true, Option.getD, builderDefault]
-  change (match (match mapE (fun e => npCast e (pyDefault l)) l.elems with
-      | .error e => Except.error e
-      | .ok vs => Except.ok (Out.const (pyDefault l) l.isList vs)) with
-    | .ok (.const d0 isl vs) => Except.ok (Out.const dt isl (vs.map (onnxCast d0 dt)))
-    | .ok o => .ok o
-    | .error e => .error e) = _
-  rw [hvs]
+  have hb : builderConst l none = .ok (.const (pyDefault l) l.isList vs) := by
+    simp [builderConst, builderAccepts, builderDefault_of_hom l hh, npConst, hvs]
+  unfold builderCastLike
+  rw [hb]
   simp only [hmap]
 
 /-! ### one argument position -/
@@ -308,8 +322,9 @@ theorem emitStatic_eq (sa : List (Slot κ × Arg)) (hwt : WTsa sa) (p : Slot κ 
   | tensor dt k => rfl
   | lit l =>
     have hr := hr l rfl
+    have hh := hom_of_litRepr l _ hr
     have ht := target_first_last sa hwt s
-    simp only [emitStatic, emitExpected, ruleDType] at *
+    simp only [emitStatic, emitExpected, ruleDType, ruleDefault_of_hom l hh] at *
     rw [← ht]
     cases hf : targetFirst sa s with
     | none =>
@@ -327,14 +342,15 @@ theorem emitDynamic_eq (sa : List (Slot κ × Arg)) (hwt : WTsa sa) (p : Slot κ
   | tensor dt k => rfl
   | lit l =>
     have hr := hr l rfl
+    have hh := hom_of_litRepr l _ hr
     have ht := target_first_last sa hwt s
-    simp only [emitDynamic, emitExpected, ruleDType] at *
+    simp only [emitDynamic, emitExpected, ruleDType, ruleDefault_of_hom l hh, dynDefault_of_hom l hh] at *
     cases hl : targetLast sa s with
     | none =>
       rw [hl] at ht
       simp only [Option.map_none, Option.map_eq_none_iff] at ht
       rw [ht] at hr ⊢
-      simpa [dynDefault, pyDefault] using npConst_of_repr l (pyDefault l) hr
+      simpa using npConst_of_repr l (pyDefault l) hr
     | some r =>
       rw [hl] at ht
       obtain ⟨dt, k⟩ := r
@@ -350,7 +366,8 @@ theorem emitBuilder_eq (sa : List (Slot κ × Arg)) (p : Slot κ × Arg) (hr : R
   | tensor dt k => rfl
   | lit l =>
     have hr := hr l rfl
-    simp only [emitBuilder, emitExpected, ruleDType] at *
+    have hh := hom_of_litRepr l _ hr
+    simp only [emitBuilder, emitExpected, ruleDType, ruleDefault_of_hom l hh] at *
     cases hf : targetFirst sa s with
     | none =>
       rw [hf] at hr
@@ -578,7 +595,7 @@ theorem pyEqS_refl (x : Scalar) : pyEqS x x = true := by
 /-- PRE-FIX invariant: every cache entry holds the tensor of its own key, and keys are well formed, without
 negative zero and within the model. -/
 def CacheOkPre (c : Cache) : Prop :=
-  ∀ e ∈ c, mapE (fun s => npCast s e.dtype) e.key.elems = .ok e.vals ∧ e.dtype = e.keyDt.getD .bool
+  ∀ e ∈ c, mapE (fun s => npCast s e.dtype) e.key.elems = .ok e.vals ∧ e.dtype = e.keyDt.getD (irDefault e.key)
     ∧ e.key.WF ∧ e.key.SI ∧ LitModelled e.key e.dtype
 
 /-- Invariant behind `cache_names_unique`. -/
@@ -618,7 +635,7 @@ theorem pyEq_refl_s (x : Scalar) : pyEq (.s x) (.s x) = true := pyEqS_refl x
 
 /-- Every cache entry holds the tensor of its own key, in the dtype of its key. -/
 def CacheOk (c : Cache) : Prop :=
-  ∀ e ∈ c, mapE (fun s => npCast s e.dtype) e.key.elems = .ok e.vals ∧ e.dtype = e.keyDt.getD .bool
+  ∀ e ∈ c, mapE (fun s => npCast s e.dtype) e.key.elems = .ok e.vals ∧ e.dtype = e.keyDt.getD (irDefault e.key)
 
 theorem namesOk_promoteBy (eq : Lit → Lit → Bool) (hrefl : ∀ x, eq (.s x) (.s x) = true)
     (c : Cache) (hn : NamesOk c) (l : Lit) (dt : Option DType) (c' : Cache) (e : Entry)
@@ -634,7 +651,7 @@ theorem namesOk_promoteBy (eq : Lit → Lit → Bool) (hrefl : ∀ x, eq (.s x) 
       exact hn
     | none =>
       rw [hf] at h
-      cases hm : mapE (fun e => npCast e ((keyDType l dt).getD .bool)) l.elems with
+      cases hm : mapE (fun e => npCast e ((keyDType l dt).getD (irDefault l))) l.elems with
       | error err => simp [hm] at h
       | ok vs =>
         simp only [hm, Except.ok.injEq, Prod.mk.injEq] at h
@@ -706,7 +723,7 @@ theorem wtsa_one_tensor {κ : Type} [DecidableEq κ] (s1 s2 : Slot κ) (d : DTyp
 
 /-! ### `_cast_inputs` through the cache, histories -/
 
-theorem keyDType_none_default (l : Lit) : (keyDType l none).getD .bool = builderDefault l := by
+theorem keyDType_none_default (l : Lit) : (keyDType l none).getD (irDefault l) = builderDefault l := by
   unfold keyDType builderDefault
   cases l.head.kind <;> rfl
 
@@ -715,7 +732,7 @@ theorem promote_refused (c : Cache) (l : Lit) (dt : Option DType) (h : builderAc
   simp [promote, promoteBy, h]
 
 theorem promote_error (c : Cache) (hc : CacheOk c) (l : Lit) (dt : Option DType) (ha : builderAccepts l = true)
-    (e : Err) (hm : mapE (fun s => npCast s ((keyDType l dt).getD .bool)) l.elems = .error e) :
+    (e : Err) (hm : mapE (fun s => npCast s ((keyDType l dt).getD (irDefault l))) l.elems = .error e) :
     promote c l dt = .error e := by
   unfold promote promoteBy
   simp only [ha, Bool.not_true, Bool.false_eq_true, if_false]
@@ -726,13 +743,14 @@ theorem promote_error (c : Cache) (hc : CacheOk c) (l : Lit) (dt : Option DType)
     have hp := List.find?_some hf
     simp only [Bool.and_eq_true, beq_iff_eq, reprEq_iff_eq] at hp
     obtain ⟨h1, h2⟩ := hc e0 hmem
-    rw [hp.1, h2, hp.2, hm] at h1
+    rw [hp.1] at h1 h2
+    rw [h2, hp.2, hm] at h1
     cases h1
   | none => simp [hm]
 
 theorem promote_ok (c : Cache) (hc : CacheOk c) (l : Lit) (dt : Option DType) (ha : builderAccepts l = true)
-    (vs : List SVal) (hm : mapE (fun s => npCast s ((keyDType l dt).getD .bool)) l.elems = .ok vs) :
-    ∃ c' e, promote c l dt = .ok (c', e) ∧ e.vals = vs ∧ e.dtype = (keyDType l dt).getD .bool ∧ CacheOk c' := by
+    (vs : List SVal) (hm : mapE (fun s => npCast s ((keyDType l dt).getD (irDefault l))) l.elems = .ok vs) :
+    ∃ c' e, promote c l dt = .ok (c', e) ∧ e.vals = vs ∧ e.dtype = (keyDType l dt).getD (irDefault l) ∧ CacheOk c' := by
   unfold promote promoteBy
   simp only [ha, Bool.not_true, Bool.false_eq_true, if_false]
   cases hf : c.findBy reprEq l (keyDType l dt) with
@@ -742,8 +760,9 @@ theorem promote_ok (c : Cache) (hc : CacheOk c) (l : Lit) (dt : Option DType) (h
     have hp := List.find?_some hf
     simp only [Bool.and_eq_true, beq_iff_eq, reprEq_iff_eq] at hp
     obtain ⟨h1, h2⟩ := hc e0 hmem
-    have hd : e0.dtype = (keyDType l dt).getD .bool := by rw [h2, hp.2]
-    rw [hp.1, hd, hm] at h1
+    rw [hp.1] at h1 h2
+    have hd : e0.dtype = (keyDType l dt).getD (irDefault l) := by rw [h2, hp.2]
+    rw [hd, hm] at h1
     refine ⟨c, e0, rfl, ?_, hd, hc⟩
     cases h1; rfl
   | none =>
@@ -760,9 +779,9 @@ theorem promote_ok (c : Cache) (hc : CacheOk c) (l : Lit) (dt : Option DType) (h
 /-- Cache-free result of promoting `l` with requested dtype `dt`, as an `Out`. -/
 theorem builderConst_eq (l : Lit) (dt : Option DType) :
     builderConst l dt = if builderAccepts l then
-      (match mapE (fun s => npCast s ((keyDType l dt).getD .bool)) l.elems with
+      (match mapE (fun s => npCast s ((keyDType l dt).getD (irDefault l))) l.elems with
        | .error e => .error e
-       | .ok vs => .ok (.const ((keyDType l dt).getD .bool) l.isList vs)) else .error .refused := by
+       | .ok vs => .ok (.const ((keyDType l dt).getD (irDefault l)) l.isList vs)) else .error .refused := by
   unfold builderConst npConst
   cases dt with
   | none => rw [keyDType_none_default]; rfl
@@ -795,7 +814,7 @@ theorem emitBuilderC_spec (sa : List (Slot κ × Arg)) (c : Cache) (hc : CacheOk
         exact ⟨fun e h => by cases h; rfl, fun c' e h => by cases h⟩
       | true =>
         simp only [if_true]
-        cases hm : mapE (fun s => npCast s ((keyDType l dt).getD .bool)) l.elems with
+        cases hm : mapE (fun s => npCast s ((keyDType l dt).getD (irDefault l))) l.elems with
         | error e0 =>
           rw [promote_error c hc l dt ha e0 hm]
           exact ⟨fun e h => by cases h; rfl, fun c' e h => by cases h⟩
@@ -884,6 +903,101 @@ theorem runCalls_spec : ∀ (calls : List (List (Formal κ) × List Arg)) (c : C
 end
 
 
+/-! ### the three default dtypes coincide on every literal (since fa769b8) -/
+
+theorem Kind.beq_refl (k : Kind) : k.beq k = true := by cases k <;> rfl
+
+theorem hom_of_all_kind (l : Lit) (k : Kind) (h : ∀ e ∈ l.elems, e.kind = k) : l.homogeneous = true := by
+  unfold Lit.homogeneous
+  rw [List.all_eq_true]
+  intro e he
+  rw [h e he, h l.head (head_mem_elems l)]
+  exact Kind.beq_refl k
+
+theorem not_allI_of_not_hom (l : Lit) (h : l.homogeneous = false) : l.elems.all Scalar.isI = false := by
+  cases ha : l.elems.all Scalar.isI with
+  | false => rfl
+  | true =>
+    rw [List.all_eq_true] at ha
+    have := hom_of_all_kind l .i (fun e he => by have := ha e he; cases e <;> simp_all [Scalar.isI, Scalar.kind])
+    rw [h] at this; cases this
+
+theorem not_allF_of_not_hom (l : Lit) (h : l.homogeneous = false) : l.elems.all Scalar.isF = false := by
+  cases ha : l.elems.all Scalar.isF with
+  | false => rfl
+  | true =>
+    rw [List.all_eq_true] at ha
+    have := hom_of_all_kind l .f (fun e he => by have := ha e he; cases e <;> simp_all [Scalar.isF, Scalar.kind])
+    rw [h] at this; cases this
+
+/-- Eager mode's default dtype is `ir.tensor`'s (the converter's) on every literal. -/
+theorem dynDefault_eq (l : Lit) : dynDefault l = irDefault l := by
+  unfold dynDefault
+  cases hh : l.homogeneous with
+  | true => simp only [if_true]; exact (irDefault_of_hom l hh).symm
+  | false =>
+    simp only [Bool.false_eq_true, if_false]
+    unfold irDefault numpyInfer
+    simp only [not_allI_of_not_hom l hh, not_allF_of_not_hom l hh, Bool.false_eq_true, if_false]
+
+theorem sameType_elems (l : Lit) (hs : sameTypeAsHead l = true) (P : Scalar → Bool)
+    (hhead : P l.head = true)
+    (hrest : ∀ x xs, l = .l x xs → ∀ e ∈ xs, P e = true) : ∀ e ∈ l.elems, P e = true := by
+  cases l with
+  | s x => intro e he; simp only [Lit.elems, List.mem_singleton] at he; subst he; exact hhead
+  | l x xs =>
+    intro e he
+    simp only [Lit.elems, List.mem_cons] at he
+    rcases he with rfl | he
+    · exact hhead
+    · exact hrest x xs rfl e he
+
+/-- The builder's default dtype is `ir.tensor`'s on every literal. -/
+theorem builderDefault_eq (l : Lit) : builderDefault l = irDefault l := by
+  unfold builderDefault builderKeyDType
+  cases hs : sameTypeAsHead l with
+  | false => rfl
+  | true =>
+    simp only [if_true]
+    cases hk : l.head.kind with
+    | b => rfl
+    | i =>
+      simp only [Option.getD_some]
+      have hhead : l.head.isI = true := by cases hx : l.head <;> simp_all [Scalar.kind, Scalar.isI]
+      have hel : ∀ e ∈ l.elems, (e.isI || e.isB) = true :=
+        sameType_elems l hs _ (by simp [hhead]) (fun x xs hl e he => by
+          subst hl
+          simp only [Lit.head] at hk
+          simp only [sameTypeAsHead, hk, List.all_eq_true] at hs
+          exact hs e he)
+      unfold irDefault
+      by_cases h1 : l.elems.all Scalar.isI = true
+      · simp [h1]
+      · have h2 : l.elems.all Scalar.isF = false :=
+          not_all_of_kind l _ (by cases hx : l.head <;> simp_all [Scalar.kind, Scalar.isF, Scalar.isI])
+        have h3 : l.elems.all Scalar.isB = false :=
+          not_all_of_kind l _ (by cases hx : l.head <;> simp_all [Scalar.kind, Scalar.isB, Scalar.isI])
+        have h4 : l.elems.all (fun e => !e.isF) = true := by
+          rw [List.all_eq_true]
+          intro e he
+          have := hel e he
+          cases e <;> simp_all [Scalar.isI, Scalar.isB, Scalar.isF]
+        simp [h1, h2, h3, h4]
+    | f =>
+      simp only [Option.getD_some]
+      have hhead : l.head.isF = true := by cases hx : l.head <;> simp_all [Scalar.kind, Scalar.isF]
+      have hel : ∀ e ∈ l.elems, e.isF = true :=
+        sameType_elems l hs _ hhead (fun x xs hl e he => by
+          subst hl
+          simp only [Lit.head] at hk
+          simp only [sameTypeAsHead, hk, List.all_eq_true] at hs
+          exact hs e he)
+      have h1 : l.elems.all Scalar.isI = false :=
+        not_all_of_kind l _ (by cases hx : l.head <;> simp_all [Scalar.kind, Scalar.isI, Scalar.isF])
+      have h2 : l.elems.all Scalar.isF = true := List.all_eq_true.mpr hel
+      unfold irDefault
+      simp [h1, h2]
+
 /-! ### dtype-level agreement without representability -/
 
 theorem npCast_error (e : Scalar) (dt : DType) (err : Err) (h : npCast e dt = .error err) : err = .overflow := by
@@ -916,24 +1030,24 @@ theorem npConst_dt (l : Lit) (dt : DType) : OvOrDt (npConst l dt) (some dt) := b
   | error e => left; rw [mapE_npCast_error dt _ e hm]
   | ok vs => right; exact ⟨_, rfl, rfl⟩
 
-theorem staticConst_dt (l : Lit) (hh : l.homogeneous = true) (t : Option DType) :
-    OvOrDt (staticConst l t) (some (t.getD (pyDefault l))) := by
-  unfold staticConst
-  simp only [irDefault_of_hom l hh]
-  cases hm : mapE (fun e => npCast e (pyDefault l)) l.elems with
+theorem staticConst_dt (l : Lit) (t : Option DType) :
+    OvOrDt (staticConst l t) (some (t.getD (ruleDefault l))) := by
+  unfold staticConst ruleDefault
+  dsimp only
+  cases hm : mapE (fun e => npCast e (irDefault l)) l.elems with
   | error e => left; rw [mapE_npCast_error _ _ e hm]
   | ok vs => right; cases t <;> exact ⟨_, rfl, rfl⟩
 
-theorem builderConst_dt (l : Lit) (hh : l.homogeneous = true) (t : Option DType) :
-    OvOrDt (builderConst l t) (some (t.getD (pyDefault l))) := by
+theorem builderConst_dt (l : Lit) (t : Option DType) :
+    OvOrDt (builderConst l t) (some (t.getD (ruleDefault l))) := by
   unfold builderConst
-  simp only [accepts_of_hom l hh, if_true, builderDefault, pyDefault]
+  simp only [builderAccepts, if_true, builderDefault_eq, ruleDefault]
   exact npConst_dt l _
 
-theorem builderCastLike_dt (l : Lit) (hh : l.homogeneous = true) (dt : DType) :
+theorem builderCastLike_dt (l : Lit) (dt : DType) :
     OvOrDt (builderCastLike l dt) (some dt) := by
   unfold builderCastLike builderConst npConst
-  simp only [accepts_of_hom l hh, if_true]
+  simp only [builderAccepts, if_true]
   cases hm : mapE (fun e => npCast e ((none : Option DType).getD (builderDefault l))) l.elems with
   | error e => left; rw [mapE_npCast_error _ _ e hm]
   | ok vs => right; exact ⟨_, rfl, rfl⟩
@@ -971,8 +1085,7 @@ theorem assignFrom_args (fs : List (Formal κ)) : ∀ (args : List Arg) (i : Nat
         subst h
         simp [assignFrom_args fs as (i + 1) rest hr]
 
-theorem emit_dt (sa : List (Slot κ × Arg)) (hwt : WTsa sa) (p : Slot κ × Arg)
-    (hh : ∀ l, p.2 = .lit l → l.homogeneous = true) :
+theorem emit_dt (sa : List (Slot κ × Arg)) (hwt : WTsa sa) (p : Slot κ × Arg) :
     OvOrDt (emitStatic sa p) (emitExpected sa p).dtype? ∧ OvOrDt (emitDynamic sa p) (emitExpected sa p).dtype? ∧
     OvOrDt (emitBuilder sa p) (emitExpected sa p).dtype? := by
   obtain ⟨s, a⟩ := p
@@ -980,22 +1093,21 @@ theorem emit_dt (sa : List (Slot κ × Arg)) (hwt : WTsa sa) (p : Slot κ × Arg
   | none => exact ⟨Or.inr ⟨_, rfl, rfl⟩, Or.inr ⟨_, rfl, rfl⟩, Or.inr ⟨_, rfl, rfl⟩⟩
   | tensor dt k => exact ⟨Or.inr ⟨_, rfl, rfl⟩, Or.inr ⟨_, rfl, rfl⟩, Or.inr ⟨_, rfl, rfl⟩⟩
   | lit l =>
-    have hl := hh l rfl
     have ht := target_first_last sa hwt s
     simp only [emitStatic, emitDynamic, emitBuilder, emitExpected, ruleDType, Out.dtype?]
     refine ⟨?_, ?_, ?_⟩
-    · rw [ht]; exact staticConst_dt l hl _
+    · rw [ht]; exact staticConst_dt l _
     · rw [ht]
       cases hl2 : targetLast sa s with
-      | none => simpa [dynDefault, pyDefault] using npConst_dt l (pyDefault l)
+      | none => simpa [dynDefault_eq, ruleDefault] using npConst_dt l (irDefault l)
       | some r => obtain ⟨dt, k⟩ := r; simpa using npConst_dt l dt
     · cases hf : targetFirst sa s with
-      | none => simpa using builderConst_dt l hl none
+      | none => simpa using builderConst_dt l none
       | some r =>
         obtain ⟨dt, k⟩ := r
         cases k with
-        | true => simpa using builderConst_dt l hl (some dt)
-        | false => simpa using builderCastLike_dt l hl dt
+        | true => simpa using builderConst_dt l (some dt)
+        | false => simpa using builderCastLike_dt l dt
 
 end
 
